@@ -1302,7 +1302,9 @@ class Sim:
                     else:
                         obj.coord[op["k"] % m.m, i] = op["value"]
                 elif what == "annot":
-                    obj.get_annotation(op["cat"])[i] = op["value"]
+                    # the annotation array as handed out by get_annotation(), or (every other position) by attribute access
+                    arr = getattr(obj, op["cat"]) if op["i"] % 2 else obj.get_annotation(op["cat"])
+                    arr[i] = op["value"]
                 elif what == "box":
                     if m.kind == "array":
                         obj.box[0, 0] = op["value"]
@@ -1326,10 +1328,32 @@ class Sim:
                 if what == "iter":
                     return {}, list(obj)
                 if what == "len":
+                    self.check_windows(obj, self.ms[op["r"]])
                     return {}, len(obj)
                 return {}, obj.shape
             return f
         raise AssertionError(name)
+
+    def check_windows(self, obj, m):
+        """Two overlapping windows of one array (views of the same buffers, shifted by one atom; and the array against
+        itself reversed) have equal annotations exactly if the model's value lists say so; stack() of two windows
+        whose annotations differ must be refused."""
+        import biotite.structure as struc
+
+        if m is None or m.kind != "array" or m.n < 3 or not isinstance(obj, struc.AtomArray):
+            return
+        for label, w1, w2, l1, l2 in (("shifted", obj[0:m.n - 1], obj[1:m.n], slice(0, m.n - 1), slice(1, m.n)),
+                                      ("reversed", obj[:], obj[::-1], slice(None), slice(None, None, -1))):
+            exp = all(same_vals(v[l1], v[l2]) for v in m.ann.values())
+            st, got = call(w1.equal_annotations, w2)
+            if st == "exc" or bool(got) != exp:
+                self.fail("model:equal_annotations-of-overlapping-windows", what=label, got=got if st == "ok" else exc_name(got), expected=exp)
+            if not exp:
+                st, val = call(struc.stack, [w1, w2])
+                if st == "ok" or not isinstance(val, ValueError):
+                    self.fail("rejection:accepted", op="stack of two windows of one array whose annotations differ", what=label,
+                              got="ok" if st == "ok" else exc_name(val))
+        self.res.stats["probe:overlapping-windows-compared"] += 1
 
     def compare_value(self, got, exp, op):
         kind, e = exp
